@@ -923,6 +923,15 @@ class PDir(Config):
     impl["resetOnFail"] = res == ["missing", "missing"]
     P.impl = impl
     ctx.extra_cov["source_variant"] = impl
+    ctx.extra_cov["switch_hypotheses_met_by_the_probed_source"] = {
+        "validate_sound / set_sound for every type (else only where no Union / no nested configuration class occurs)":
+            not impl["unionDictNone"] and not impl["cfgNoneOk"],
+        "validate_conforming_id / set_conforming_id / scalar_coercions_exact (no switch needed)": True,
+        "validate_conforming_id_union": not impl["unionDictNone"] and not impl["enumAssert"] and not impl["enumNameFails"],
+        "validate_finds_missing / submit_rejects_missing over all edges (else validate_finds_missing_walk: direct values, pre/init tasks)":
+            impl["deepValidate"],
+        "validate_history_sound, failing validations keep the flags trustworthy": impl["resetOnFail"],
+    }
     return impl
 
 
@@ -1681,7 +1690,7 @@ def correspond(ctx):
     probe_impl(ctx)
     run_case_list(ctx, [json.loads(json.dumps(c)) for c in CORPUS])
     t0 = time.time()
-    ntypes = ctx.scale(260, 2400)
+    ntypes = ctx.scale(260, 3200)
     batch = 130 if ctx.quick() else 400
     done = 0
     while done < ntypes:
@@ -1690,7 +1699,7 @@ def correspond(ctx):
         done += k
     run_decl_cases(ctx, rng, ctx.scale(40, 400))
     t1 = time.time()
-    nlibs, per = ctx.scale((14, 18), (80, 22))
+    nlibs, per = ctx.scale((14, 18), (110, 22))
     run_graphs(ctx, rng, nlibs, per)
     t2 = time.time()
     flush(ctx)
